@@ -18,13 +18,14 @@ func init() { Registry["C04"] = c04 }
 // truth is in the shape of the code are decided (see DESIGN 4/C04): scale consistency of the feedback
 // path (units-of-measure inference), provenance of the fed-back value, monotonicity of the steady value.
 func c04(c *Ctx) {
-	c.R.Explanation = "C04: three structural clauses are decided on the SSA of /repo; the dynamics are not. R-scale (engine E7, units-of-measure inference): every numeric value of the controller and control-loop packages gets a dimension vector over {loop scale 0..255, fan scale [min,max]/raw PWM}; +, -, phi, store/load of fields and cells, argument/parameter binding (helpers instantiated per call site) generate equalities, * and / add/subtract vectors, literals and unmodelled operations are free variables. Seeds come from the interfaces only: SpeedCurve.Evaluate -> loop; ControlLoop.Cycle(loop, loop) -> loop (also imposed on its implementations); Fan.GetPwm/GetMinPwm/GetMaxPwm/GetStartPwm -> fan; Fan.SetPwm/SetMinPwm/SetMaxPwm/SetStartPwm(fan). The system is solved by elimination; an impossible equality is a violation at the instruction that introduced it. This is a necessary condition of 'the steady request is determined by the curve value and the fan limits alone, identically with and without maxPwmChangePerCycle': a fan-scaled value fed back as the loop's current value moves the fixed point (the pinned tree did exactly that: min 100, curve 0, limit 10 -> 154, 187, ... 237; fixed in /repo, see KNOWN_FINDINGS). R-feedback: the value handed to Cycle as `current` comes (apart from a first-cycle initialiser) from a controller field whose every store is the (clamped) result of Cycle, and that store is passed on every path from the Cycle call to a successful return. R-mono-steady (engine E8): the request is non-decreasing in the curve value through the direct loop, clamp and rescale. R-clock: a control-loop routine that measures elapsed time against a remembered time stamp (the PID loop's dt) stores this activation's time.Now() into that field on every path to a return - otherwise the next dt spans the whole idle period and the integral winds up in proportion to how long nothing happened ('depends only on the settings, not on what happened before'). NOT decided: settling time itself, PID wind-up bounds and 'within one step' for PID, exact equality of fixed points, the per-cycle difference bound in fan scale, monotone approach."
+	c.R.Explanation = "C04: three structural clauses are decided on the SSA of /repo; the dynamics are not. R-scale (engine E7, units-of-measure inference): every numeric value of the controller and control-loop packages gets a dimension vector over {loop scale 0..255, fan scale [min,max]/raw PWM}; +, -, phi, store/load of fields and cells, argument/parameter binding (helpers instantiated per call site) generate equalities, * and / add/subtract vectors, literals and unmodelled operations are free variables. Seeds come from the interfaces only: SpeedCurve.Evaluate -> loop; ControlLoop.Cycle(loop, loop) -> loop (also imposed on its implementations); Fan.GetPwm/GetMinPwm/GetMaxPwm/GetStartPwm -> fan; Fan.SetPwm/SetMinPwm/SetMaxPwm/SetStartPwm(fan). The system is solved by elimination; an impossible equality is a violation at the instruction that introduced it. This is a necessary condition of 'the steady request is determined by the curve value and the fan limits alone, identically with and without maxPwmChangePerCycle': a fan-scaled value fed back as the loop's current value moves the fixed point (the pinned tree did exactly that: min 100, curve 0, limit 10 -> 154, 187, ... 237; fixed in /repo, see KNOWN_FINDINGS). R-feedback: the value handed to Cycle as `current` comes (apart from a first-cycle initialiser) from a controller field whose every store is the (clamped) result of Cycle, and that store is passed on every path from the Cycle call to a successful return. R-mono-steady (engine E8): the request is non-decreasing in the curve value through the direct loop, clamp and rescale. R-ownloop: every fan controller is constructed with a control-loop object created for it (inside the per-fan iteration): a loop object shared by several controllers shares the PID memory, so one fan's error history moves another fan's requests. R-clock: a control-loop routine that measures elapsed time against a remembered time stamp (the PID loop's dt) stores this activation's time.Now() into that field on every path to a return - otherwise the next dt spans the whole idle period and the integral winds up in proportion to how long nothing happened ('depends only on the settings, not on what happened before'). NOT decided: settling time itself, PID wind-up bounds and 'within one step' for PID, exact equality of fixed points, the per-cycle difference bound in fan scale, monotone approach."
 	c.R.Assumptions = append(c.R.Assumptions,
 		"dimension seeds are the documented meaning of the Fan, SpeedCurve and ControlLoop interfaces",
 		"literals and values from unmodelled operations may take any dimension (they can never cause a report)")
 	c.ruleScale("R-scale")
 	c.ruleFeedback("R-feedback")
 	c.ruleClock("R-clock")
+	c.ruleOwnLoop("R-ownloop")
 	c.monoDirectLoop("R-mono-steady")
 	c.monoRegulation("R-mono-steady")
 	c.R.Require("R-mono-steady", 4)
@@ -498,4 +499,89 @@ func mustStoreField(fn *ssa.Function, name string, depth int) bool {
 		}
 	})
 	return !missed
+}
+
+// ruleOwnLoop: the ControlLoop handed to NewFanController is created per controller.
+func (c *Ctx) ruleOwnLoop(rule string) {
+	newCtrl := c.FuncOpt(PkgCtrl, "NewFanController")
+	n := 0
+	for _, fn := range c.P.Funcs {
+		if !c.P.IsRepoFunc(fn) {
+			continue
+		}
+		Calls(fn, func(cc ssa.CallInstruction) {
+			call, ok := cc.(*ssa.Call)
+			if !ok || newCtrl == nil || ir.Callee(call).Static != newCtrl {
+				return
+			}
+			// which argument is the control loop?
+			var arg ssa.Value
+			for i, p := range newCtrl.Params {
+				if nt := ir.NamedOf(p.Type()); nt != nil && nt.Obj().Name() == "ControlLoop" && i < len(call.Call.Args) {
+					arg = call.Call.Args[i]
+				}
+			}
+			if arg == nil {
+				return
+			}
+			n++
+			key := c.FK(fn)
+			head := loopHead(call.Block())
+			if head == nil {
+				c.R.Ok(rule, key, key, c.P.Pos(call.Pos()), "a single controller is constructed here (not in a loop): its control loop cannot be shared by this site")
+				return
+			}
+			// every definition of the argument must be created inside the same loop iteration
+			bad := ""
+			seen := map[ssa.Value]bool{}
+			var walk func(v ssa.Value, depth int)
+			walk = func(v ssa.Value, depth int) {
+				v = ir.Resolve(v)
+				if seen[v] || depth > 8 {
+					return
+				}
+				seen[v] = true
+				switch x := v.(type) {
+				case *ssa.Phi:
+					for _, e := range x.Edges {
+						walk(e, depth+1)
+					}
+				case *ssa.MakeInterface:
+					walk(x.X, depth+1)
+				case *ssa.Const:
+					// nil: no algorithm selected (validated configurations do not get here: C11)
+				case *ssa.Call:
+					inLoop := x.Block() == head || (head.Dominates(x.Block()) && loopHead(x.Block()) != nil && reachesWithinLoop(x.Block(), head))
+					if !inLoop {
+						bad = "the control loop object created at " + c.P.Pos(x.Pos()) + " (outside the per-fan loop) is handed to every controller constructed in the loop"
+					}
+					// a helper must itself create the object
+					if st := ir.Callee(x).Static; st != nil && c.P.IsRepoFunc(st) && load_FuncPkgPath(st) != PkgLoop {
+						for _, rt := range ir.Returns(st) {
+							if len(rt.Results) > 0 {
+								switch r := ir.Resolve(rt.Results[0]).(type) {
+								case *ssa.UnOp:
+									if _, isGlobal := r.X.(*ssa.Global); isGlobal {
+										bad = "the helper " + c.FK(st) + " returns a package-level control loop object"
+									}
+								}
+							}
+						}
+					}
+				default:
+					bad = "the control loop handed to the controller is not created in the per-fan iteration: " + v.String()
+				}
+			}
+			walk(arg, 0)
+			if bad != "" {
+				c.R.Bad(rule, key, key, c.P.Pos(call.Pos()), bad+": controllers share one loop state (PID integral / last error / time stamp), so a fan's request depends on what other fans did")
+			} else {
+				c.R.Ok(rule, key, key, c.P.Pos(call.Pos()), "every control loop handed to NewFanController is created inside the per-fan iteration")
+			}
+		})
+	}
+	if n == 0 {
+		c.R.Undecided(rule, "none", PkgInternal, "-", "no call of controller.NewFanController found (anchor unresolved)")
+	}
+	c.R.Require(rule, 1)
 }
